@@ -321,7 +321,17 @@ def judge(d, mc, stats, mb={}, phase_adds=frozenset(), e_species=None):
         fresh[s_["name"]] = v
     stale = any(s_["type"] <= 1 and abs(fresh.get(s_["name"], s_["lm"]) - s_["lm"]) > 1e-11 for s_ in aqs)
     switched = any(m["in"] == 2 and m["m0"] != m["prim"] for m in d["m"])
-    excused = stale and (d["iterations"] <= 0 or switched)
+    # fingerprint of "revise_guesses() ran last": its final statements are `mu_x = mu_unknown->f * 0.5 / mass_water_aq_x;
+    # gammas(mu_x);` so the ionic-strength residual W*mu - f/2 is zero to rounding (a Newton step leaves ~1e-9..1e-13 relative).
+    # Three paths lead there: model() iteration 0, a basis switch, and molalities() reporting an overflow inside the loop.
+    mu_assigned = False
+    for u in d["u"]:
+        if u["type"] == 14:
+            mu_assigned = abs(d["W"] * d["mu"] - 0.5 * u["f"]) <= 4e-16 * abs(d["W"] * d["mu"])
+    if stale:
+        stats["stale_old_rule" if (d["iterations"] <= 0 or switched) else "stale_not_old_rule"] += 1
+        stats["stale_fingerprint" if mu_assigned else "stale_no_fingerprint"] += 1
+    excused = stale and mu_assigned
     if stale:
         stats["stale_states"] += 1
     found = []
@@ -593,7 +603,8 @@ def new_stats():
                            "above_1atm", "rewritten_valence_masters", "rewritten_relative_to_switched_basis",
                            "states_with_redox_couple", "stale_states", "stale_states_excused", "couples", "isotope_initial_totals",
                            "oracle_failures", "valence_totals", "valence_totals_skipped_mole_balance", "lk_named",
-                           "corpus_cases")} | {"res_max": 0.0, "seen": set(), "altpe_names": set()}
+                           "corpus_cases", "stale_old_rule", "stale_not_old_rule", "stale_fingerprint",
+                           "stale_no_fingerprint")} | {"res_max": 0.0, "seen": set(), "altpe_names": set()}
 
 
 def resolve_named(db):
